@@ -1537,7 +1537,9 @@ def optimize_blockwise_fusion_array(expr):
                 seen_in_group.add(node._name)
 
                 group.append(node)
-                for dep_name in dependencies.get(node._name, set()):
+                # sorted: set order follows the per-process string hash seed, and
+                # the group order feeds the fused node's name (graph keys)
+                for dep_name in sorted(dependencies.get(node._name, set())):
                     dep = expr_mapping[dep_name]
 
                     stack_names = {s._name for s in stack}
